@@ -93,6 +93,8 @@ class WorldEnc:
             return self.loc[spec[1]]
         if k == 'ref':
             return self.loc[spec[1]]
+        if k in ('awaredate', 'dateonly'):
+            raise Unencodable(k)        # host date values the model's VDate (a naive datetime) does not represent
         raise ValueError(k)
 
     def env(self, d):
